@@ -75,6 +75,15 @@ def binop(I, op, a, b):
         return _PYOPS[ty](a, b)
     if isinstance(a, (list, tuple)) and isinstance(b, int) and ty is ast.Mult:
         return a * b
+    if ty is ast.Add and isinstance(a0, Cell) and a0.kind == "list" and \
+            isinstance(b, list):
+        out = a
+        for x in b:
+            n0 = out.length
+            out = SymSeq(_plus(n0, 1), (lambda i, out=out, n0=n0, x=x: ite(
+                to_int(i) == to_int(n0), _coerce_elem(x, out.elem),
+                out.get(i))), out.elem)
+        return Cell("list", out)
     if isinstance(a, SymSeq) or isinstance(b, SymSeq):
         return seq_binop(I, op, a, b)
     if isinstance(a, (SymStruct, SymRow)) or isinstance(b, (SymStruct,
@@ -248,10 +257,32 @@ def compare(I, op, a, b):
     x, y = unify(a, b)
     if z3.is_bool(x):
         x, y = to_int(x), to_int(y)
+    if I.V.log_domain and z3.is_real(x) and not I.spec:
+        # exp is strictly monotone: instance for this comparison
+        ex, ey = EXPI(I, x), EXPI(I, y)
+        I.assume((x < y) == (ex < ey))
+        I.assume((x == y) == (ex == ey))
     return _CMP[ty](x, y)
 
 
 def seq_compare(I, ty, a, b):
+    logd = I.V.log_domain and not I.spec
+    if logd:
+        for s_ in (a, b):
+            pass
+        sa = a if isinstance(a, SymSeq) else None
+        sb = b if isinstance(b, SymSeq) else None
+        n_ = (sa or sb).length
+        if (sa is None or sa.elem == "Real") and \
+                (sb is None or sb.elem == "Real") and \
+                ty in (ast.Lt, ast.LtE, ast.Gt, ast.GtE):
+            def both(k):
+                x_ = to_real(sa.get(k) if sa is not None else a)
+                y_ = to_real(sb.get(k) if sb is not None else b)
+                return z3.And((x_ < y_) == (EXPI(I, x_) < EXPI(I, y_)),
+                              (x_ == y_) == (EXPI(I, x_) == EXPI(I, y_)))
+            I.assume(forall_idx(I, n_, both))
+
     def cmp1(x, y):
         if ty is ast.Eq:
             return bz(veq(x, y))
@@ -296,6 +327,9 @@ def norm_index(I, i, n, what="index"):
     if isinstance(i, int) and i >= 0:
         I.oblige(f"{what}_in_range@{I.cur_line}", i_ < n_, "safety")
         return i
+    if isinstance(i, int) and i < 0:
+        I.oblige(f"{what}_in_range@{I.cur_line}", -n_ <= i_, "safety")
+        return z3.simplify(i_ + n_)
     I.oblige(f"{what}_in_range@{I.cur_line}",
              z3.And(-n_ <= i_, i_ < n_), "safety")
     return z3.If(i_ < 0, i_ + n_, i_)
@@ -316,6 +350,8 @@ def norm_bound(b, n, default):
         if b == 0:
             return 0
         return z3.If(b_ < n_, b_, n_)
+    if isinstance(b, int) and b < 0:
+        return z3.If(b_ + n_ < 0, 0, z3.simplify(b_ + n_))
     return z3.If(b_ < 0, z3.If(b_ + n_ < 0, 0, b_ + n_),
                  z3.If(b_ < n_, b_, n_))
 
@@ -339,6 +375,10 @@ def _minus_nonneg(hi, lo):
 def _plus(a, b):
     if isinstance(a, int) and isinstance(b, int):
         return a + b
+    if isinstance(b, int) and b == 0:
+        return a
+    if isinstance(a, int) and a == 0:
+        return b
     return to_int(a) + to_int(b)
 
 
@@ -511,6 +551,7 @@ def mask_select(I, s, mask):
     I.assume(z3.ForAll([v], z3.Implies(
         z3.And(0 <= v, v < n, mask.get(v)),
         z3.And(0 <= dst(v), dst(v) < cnt, src(dst(v)) == v))))
+    I.ghost["last_mask"] = {"src": src, "dst": dst, "cnt": cnt}
     tag = mask.__dict__.get("not_isin")
     if tag is not None:
         b = tag["b"]
@@ -527,8 +568,9 @@ def mask_select(I, s, mask):
 
 def forall_idx(I, n, body):
     k = z3.Int(I.namer.fresh("q_k"))
-    return z3.ForAll([k], z3.Implies(z3.And(0 <= k, k < to_int(n)),
-                                     bz(body(k))))
+    rng = z3.And(0 <= k, k < to_int(n))
+    b = I.ctx_simplify(rng, bz(body(k)))
+    return z3.ForAll([k], z3.Implies(rng, b))
 
 
 def store_subscript(I, base, slice_node, value, env):
@@ -1294,6 +1336,11 @@ def seq_extreme(I, s, is_max, name=None):
     I.assume(z3.And(0 <= w, w < to_int(s.length), s.get(w) == m))
     I.assume(forall_idx(I, s.length, lambda k: (s.get(k) <= m) if is_max
                         else (s.get(k) >= m)))
+    if I.V.log_domain and s.elem == "Real":
+        # the same order facts on exponential images (exp is monotone)
+        I.assume(forall_idx(I, s.length, lambda k: (
+            EXPI(I, s.get(k)) <= EXPI(I, m)) if is_max
+            else (EXPI(I, s.get(k)) >= EXPI(I, m))))
     return m
 
 
@@ -1763,8 +1810,22 @@ def _cumsum(I, x, **kw):
     n = to_int(x.length)
     k = z3.Int(I.namer.fresh("q_k"))
     I.assume(z3.Implies(n > 0, f(0) == x.get(0)))
-    I.assume(z3.ForAll([k], z3.Implies(z3.And(1 <= k, k < n),
-                                       f(k) == f(k - 1) + x.get(k))))
+    rng0 = z3.And(1 <= k, k < n)
+    I.assume(z3.ForAll([k], z3.Implies(rng0, I.ctx_simplify(
+        rng0, f(k) == f(k - 1) + x.get(k)))))
+    if I.V.log_domain and x.elem == "Real":
+        # the same recurrence on exponential images (exp_add instances)
+        I.assume(z3.Implies(n > 0, EXPF(f(0)) == EXPI(I, x.get(0))))
+        rng_ = z3.And(1 <= k, k < n)
+        I.assume(z3.ForAll([k], z3.Implies(
+            rng_, I.ctx_simplify(
+                rng_, EXPF(f(k)) == EXPF(f(k - 1)) * EXPI(I, x.get(k))))))
+        # lemma prod_pos (Lean): a running product of positive factors is
+        # positive
+        I.stats.lib_used.add("lemma:prod_pos")
+        I.assume(z3.Implies(
+            forall_idx(I, n, lambda q: EXPI(I, x.get(q)) > 0),
+            forall_idx(I, n, lambda q: EXPF(f(q)) > 0)))
     return Cell("arr", SymSeq(x.length, lambda i: f(to_int(i)), x.elem))
 
 
@@ -1798,7 +1859,15 @@ def _os_makedirs(I, *a, **k):
     return None
 
 
-@lib("numpy.asarray", "numpy.array", "numpy.atleast_1d")
+@lib("numpy.array")
+def _np_array(I, x, **kw):
+    r = _np_asarray(I, x, **kw)
+    if r is x and isinstance(x, Cell):
+        return Cell("arr", x.read())      # np.array copies
+    return r
+
+
+@lib("numpy.asarray", "numpy.atleast_1d")
 def _np_asarray(I, x, **kw):
     if isinstance(x, Cell) and x.kind == "arr":
         return x
@@ -2010,6 +2079,17 @@ def _concatenate(I, parts, **kw):
             return _val(img).get(j - ch.b(k))
         return Cell("arr", SymSeq(ch.x.length, get, "Real"))
     items = concrete_iter(I, parts)
+    if items is not None and len(items) > 2 and all(
+            isinstance(_val(p), SymSeq) for p in items):
+        acc = _val(items[0])
+        for nxt in items[1:]:
+            nxt = _val(nxt)
+            na = to_int(acc.length)
+            acc = SymSeq(na + to_int(nxt.length), (
+                lambda i, acc=acc, nxt=nxt, na=na: ite(
+                    to_int(i) < na, acc.get(i), nxt.get(to_int(i) - na))),
+                acc.elem)
+        return Cell("arr", acc)
     if items is not None and len(items) == 2:
         a, b = [_val(p) for p in items]
         if isinstance(a, SymSeq) and isinstance(b, SymSeq):
@@ -2300,3 +2380,378 @@ def _lemma_unique_enum(I, h):
     cons = forall_idx(I, m, lambda j: h.get(j) == posold(j))
     I.stats.lib_used.add("lemma:unique_complement_enum")
     return z3.Implies(ante, cons)
+
+
+# =====================================================================
+# Log-domain reasoning (C02, C05, C15, C16): a float that holds a logarithm
+# is handled through its exponential image E(l) >= 0 (-inf |-> 0).  E is a
+# *syntactic homomorphism* over real terms:
+#     E(a+b) = E(a)E(b)   E(a-b) = E(a)/E(b)   E(-a) = 1/E(a)
+#     E(0) = 1   E(-INF) = 0   E(LOGF(x)) = x   E(atom) = EXPF(atom)
+# and the numpy functions are modelled on images:
+#     np.exp(t) = E(t)      np.log(x) = LOGF(x)     np.log1p(x) = LOGF(1+x)
+#     np.logaddexp(a,b) = LOGF(E(a)+E(b))
+#     logsumexp(v) = LOGF(SUM_k E(v_k))
+# The exp/log laws behind this are lemmas of the real numbers (Lean library:
+# exp_add, exp_sub, exp_neg, exp_log, exp_zero, exp_pos, exp_lt_one...).
+# =====================================================================
+EXPF = z3.Function("EXPF", z3.RealSort(), z3.RealSort())
+LOGF = z3.Function("LOGF", z3.RealSort(), z3.RealSort())
+_ARR = z3.ArraySort(z3.IntSort(), z3.RealSort())
+SUMA = z3.Function("SUMA", _ARR, z3.IntSort(), z3.IntSort(), z3.RealSort())
+
+
+def _is_neg_inf(t):
+    t = z3.simplify(t)
+    return t.eq(z3.simplify(-INF))
+
+
+def EXPI(I, t):
+    """exponential image of a real term (python numbers allowed)."""
+    if isinstance(t, bool):
+        raise Unsupported("E of a boolean")
+    if isinstance(t, (int, float)):
+        if t == 0:
+            return z3.RealVal(1)
+        if t == float("-inf"):
+            return z3.RealVal(0)
+        if t == float("inf") or t != t:
+            raise Unsupported("E(+inf / nan)")
+        t = z3.RealVal(repr(float(t)))
+    t = to_real(t)
+    return _E(I, t)
+
+
+def _E(I, t):
+    if z3.is_rational_value(t):
+        if t.numerator_as_long() == 0:
+            return z3.RealVal(1)
+        return _atom(I, t)
+    if _is_neg_inf(t):
+        return z3.RealVal(0)
+    if z3.is_app(t):
+        k = t.decl().kind()
+        ch = t.children()
+        if k == z3.Z3_OP_ADD:
+            out = _E(I, ch[0])
+            for c in ch[1:]:
+                out = out * _E(I, c)
+            return out
+        if k == z3.Z3_OP_SUB:
+            out = _E(I, ch[0])
+            for c in ch[1:]:
+                out = out / _E(I, c)
+            return out
+        if k == z3.Z3_OP_UMINUS:
+            return 1 / _E(I, ch[0])
+        if k == z3.Z3_OP_MUL and len(ch) == 2 and \
+                z3.is_rational_value(z3.simplify(ch[0])):
+            c = z3.simplify(ch[0])
+            if c.denominator_as_long() == 1:
+                n = c.numerator_as_long()
+                if n == -1:
+                    return 1 / _E(I, ch[1])
+                if n == 2:
+                    e = _E(I, ch[1])
+                    return e * e
+                if n == 1:
+                    return _E(I, ch[1])
+        if k == z3.Z3_OP_ITE:
+            return z3.If(ch[0], _E(I, ch[1]), _E(I, ch[2]))
+        if t.decl().eq(LOGF):
+            return ch[0]
+        if k == z3.Z3_OP_TO_REAL:
+            return _atom(I, t)
+    return _atom(I, t)
+
+
+def _atom(I, t):
+    return EXPF(t)
+
+
+def _exp_axioms():
+    """facts about exp (real-analysis lemmas; -INF is the extended-real
+    bottom), triggered on every EXPF(t) ground term"""
+    t = z3.Real("t!exp")
+    e = EXPF(t)
+    body = z3.And(
+        e >= 0,
+        (t == -INF) == (e == 0),
+        z3.Implies(z3.And(t < 0, t != -INF), e < 1),
+        (t == 0) == (e == 1),
+        z3.Implies(t > 0, e > 1))
+    return z3.ForAll([t], body, patterns=[e])
+
+
+from .values import BACKGROUND as _BG   # noqa: E402
+_BG.append(_exp_axioms())
+
+
+def _lift(I, fn, *args):
+    xs = [_val(a) for a in args]
+    if any(isinstance(x, SymSeq) for x in xs):
+        n = next(x.length for x in xs if isinstance(x, SymSeq))
+        for x in xs:
+            if isinstance(x, SymSeq) and x is not xs[0]:
+                pass
+        return Cell("arr", SymSeq(n, lambda i: fn(
+            *[(x.get(i) if isinstance(x, SymSeq) else x) for x in xs]),
+            "Real"))
+    return fn(*xs)
+
+
+@lib("numpy.exp", "math.exp")
+def _np_exp(I, x, **kw):
+    return _lift(I, lambda v: EXPI(I, v), x)
+
+
+def _logf(I, x, what):
+    x = to_real(x)
+    if not I.spec:
+        # log of a negative number is nan (numpy warns, does not raise):
+        # reported as a safety obligation of kind 'domain'
+        I.oblige(f"{what}_arg_nonneg@{I.cur_line}", x >= 0, "safety")
+    return LOGF(x)
+
+
+@lib("numpy.log", "math.log")
+def _np_log(I, x, **kw):
+    x0 = _val(x)
+    if isinstance(x0, SymSeq):
+        if not I.spec:
+            I.oblige(f"log_arg_nonneg@{I.cur_line}",
+                     forall_idx(I, x0.length, lambda k: x0.get(k) >= 0),
+                     "safety")
+        return Cell("arr", SymSeq(x0.length,
+                                  lambda i: LOGF(to_real(x0.get(i))), "Real"))
+    if isinstance(x0, (int, float)) and x0 > 0:
+        return LOGF(to_real(x0))
+    return _logf(I, x0, "log")
+
+
+@lib("numpy.log1p", "math.log1p")
+def _np_log1p(I, x, **kw):
+    x0 = _val(x)
+    if isinstance(x0, SymSeq):
+        if not I.spec:
+            I.oblige(f"log1p_arg@{I.cur_line}",
+                     forall_idx(I, x0.length, lambda k: 1 + x0.get(k) >= 0),
+                     "safety")
+        return Cell("arr", SymSeq(
+            x0.length, lambda i: LOGF(1 + to_real(x0.get(i))), "Real"))
+    return _logf(I, 1 + to_real(x0), "log1p")
+
+
+@lib("numpy.logaddexp")
+def _logaddexp2(I, a, b):
+    return _lift(I, lambda p, q: LOGF(EXPI(I, p) + EXPI(I, q)), a, b)
+
+
+def sum_term(I, lo, hi, body):
+    """Sum_{k=lo}^{hi-1} body(k) as SUMA(lambda k. body, lo, hi)."""
+    k = z3.Int(I.namer.fresh("s_k"))
+    lo_, hi_ = to_int(lo), to_int(hi)
+    # only the values for lo <= k < hi matter: normalise the summand under
+    # that range (any representative denotes the same finite sum)
+    b = I.ctx_simplify(z3.And(lo_ <= k, k < hi_), to_real(body(k)))
+    lam = z3.Lambda([k], b)
+    return SUMA(lam, lo_, hi_)
+
+
+@lib("scipy.special.logsumexp")
+def _logsumexp2(I, a, b=None, **kw):
+    a = _val(a)
+    if not isinstance(a, SymSeq):
+        raise Unsupported("logsumexp of non-seq")
+    if kw:
+        raise Unsupported("logsumexp with axis/keepdims")
+    if b is None:
+        s = sum_term(I, 0, a.length, lambda k: EXPI(I, a.get(k)))
+    else:
+        b = _val(b)
+        s = sum_term(I, 0, a.length,
+                     lambda k: to_real(b.get(k)) * EXPI(I, a.get(k)))
+    return LOGF(s)
+
+
+@lib("spec.E")
+def _spec_E(I, t):
+    return EXPI(I, _val(t))
+
+
+@lib("spec.LOG")
+def _spec_LOG(I, t):
+    return LOGF(to_real(t))
+
+
+
+@lib("numpy.ones_like", "numpy.zeros_like")
+def _ones_like(I, x, **kw):
+    x = _val(x)
+    one = z3.RealVal(1)
+    return Cell("arr", SymSeq(x.length, lambda i: one, "Real"))
+
+
+_np_zeros_prev = LIB["numpy.zeros"].fn
+
+
+@lib("numpy.zeros")
+def _np_zeros(I, shape, dtype=None, **kw):
+    if isinstance(shape, (tuple, list)):
+        return _np_zeros_prev(I, shape, dtype, **kw)
+    zero = z3.RealVal(0)
+    return Cell("arr", SymSeq(shape, lambda i: zero, "Real"))
+
+
+@lib("numpy.ones")
+def _np_ones(I, shape, dtype=None, **kw):
+    if isinstance(shape, (tuple, list)):
+        return _np_zeros_prev(I, shape, dtype, **kw)
+    one = z3.RealVal(1)
+    return Cell("arr", SymSeq(shape, lambda i: one, "Real"))
+
+
+METHODS[("StrVal", "lower")] = lambda I, b: E.LibFunc(
+    "str.lower", lambda I2: b)     # option strings are stored lower-cased
+
+
+@lib("spec.ext")
+def _spec_ext(I, seq, v):
+    """seq ++ [v]"""
+    s_ = as_seq(I, seq)
+    n = s_.length
+    vv = to_real(v)
+    return SymSeq(_plus(n, 1), lambda i: ite(to_int(i) == to_int(n), vv,
+                                             s_.get(i)), "Real")
+
+
+@lib("spec.real")
+def _spec_real(I, x):
+    return to_real(_val(x))
+
+
+# ------------------------------------------------------ C16: random draws
+@lib("numpy.random.rand")
+def _np_rand(I, *shape):
+    if len(shape) != 1:
+        raise Unsupported("np.random.rand with other than one dimension")
+    n = shape[0]
+    f = z3.Function(I.namer.fresh("rand"), z3.IntSort(), z3.RealSort())
+    # library contract: uniform draws lie in [0, 1)
+    I.assume(forall_idx(I, n, lambda k: z3.And(0 <= f(k), f(k) < 1)))
+    I.ghost["last_rand"] = f
+    return Cell("arr", SymSeq(n, lambda i: f(to_int(i)), "Real"))
+
+
+@lib("numpy.where")
+def _np_where(I, cond, *rest):
+    if rest:
+        raise Unsupported("three-argument np.where")
+    c = _val(cond)
+    if not isinstance(c, SymSeq) or c.elem != "Bool":
+        raise Unsupported("np.where of a non-boolean array")
+    idx = SymSeq(c.length, lambda i: to_int(i), "Int")
+    sel = mask_select(I, idx, c)
+    I.ghost["last_where"] = I.ghost.get("last_mask")
+    return (Cell("arr", sel),)
+
+
+@lib("numpy.max", "numpy.amax", "numpy.nanmax")
+def _np_max(I, x, **kw):
+    return seq_extreme(I, as_seq(I, x), True, name="npmax")
+
+
+@lib("numpy.min", "numpy.amin")
+def _np_min(I, x, **kw):
+    return seq_extreme(I, as_seq(I, x), False, name="npmin")
+
+
+@lib("numpy.random.choice")
+def _np_choice(I, a, size=None, p=None, replace=True, **kw):
+    if size is None:
+        raise Unsupported("np.random.choice without size")
+    n = to_int(a)
+    f = z3.Function(I.namer.fresh("choice"), z3.IntSort(), z3.IntSort())
+    I.oblige(f"choice_size_nonneg@{I.cur_line}", to_int(size) >= 0,
+             "lib_requires")
+    if p is not None:
+        pv = _val(p)
+        I.oblige(f"choice_p_len@{I.cur_line}", to_int(pv.length) == n,
+                 "lib_requires")
+        I.oblige(f"choice_p_nonneg@{I.cur_line}",
+                 forall_idx(I, n, lambda k: pv.get(k) >= 0), "lib_requires")
+        I.ghost["last_choice_p"] = pv
+    I.ghost["last_choice_replace"] = replace
+    # library contract: `size` indices, each in [0, a); with p they are
+    # drawn with those probabilities (the frequency claim is numpy's)
+    I.assume(forall_idx(I, size, lambda k: z3.And(0 <= f(k), f(k) < n)))
+    return Cell("arr", SymSeq(size, lambda i: f(to_int(i)), "Int"))
+
+
+@lib("spec.maxof")
+def _spec_maxof(I, seq):
+    s_ = as_seq(I, seq)
+    srt = z3.RealSort() if s_.elem == "Real" else z3.IntSort()
+    m = I.fresh_const("specmax", srt)
+    w = I.fresh_const("specargmax", z3.IntSort())
+    # definitional: a non-empty finite sequence has a maximum
+    I.assume(z3.Implies(to_int(s_.length) > 0, z3.And(
+        0 <= w, w < to_int(s_.length), s_.get(w) == m)))
+    I.assume(forall_idx(I, s_.length, lambda k: s_.get(k) <= m))
+    return m
+
+
+@lib("spec.choice_p")
+def _spec_choice_p(I, i):
+    pv = I.ghost.get("last_choice_p")
+    if pv is None:
+        # no multinomial draw on this path: the clause that mentions it is
+        # guarded by the method, so any value will do
+        return I.fresh_const("no_choice_p", z3.RealSort())
+    return pv.get(to_int(i))
+
+
+
+def _sum_parts(t):
+    if not (z3.is_app(t) and t.decl().name() == "SUMA"):
+        raise SpecError("expected a Sum(...) term")
+    return t.children()
+
+
+@lib("spec.lemma_sum_nonneg")
+def _lemma_sum_nonneg(I, t):
+    """Finset.sum_nonneg: a finite sum of non-negative terms is >= 0."""
+    lam, lo, hi = _sum_parts(t)
+    k = z3.Int(I.namer.fresh("q_sn"))
+    I.stats.lib_used.add("lemma:sum_nonneg")
+    return z3.Implies(z3.ForAll([k], z3.Implies(
+        z3.And(lo <= k, k < hi), z3.Select(lam, k) >= 0)), t >= 0)
+
+
+@lib("spec.lemma_sum_pos")
+def _lemma_sum_pos(I, t):
+    """Finset.sum_pos': non-negative terms, one of them positive => > 0."""
+    lam, lo, hi = _sum_parts(t)
+    k = z3.Int(I.namer.fresh("q_sp"))
+    j = z3.Int(I.namer.fresh("q_spj"))
+    I.stats.lib_used.add("lemma:sum_pos")
+    return z3.Implies(z3.And(
+        z3.ForAll([k], z3.Implies(z3.And(lo <= k, k < hi),
+                                  z3.Select(lam, k) >= 0)),
+        z3.Exists([j], z3.And(lo <= j, j < hi, z3.Select(lam, j) > 0))),
+        t > 0)
+
+
+@lib("spec.choice_replace")
+def _spec_choice_replace(I):
+    v = I.ghost.get("last_choice_replace")
+    return True if v is None else bool(v)
+
+
+
+@lib("spec.rand_u")
+def _spec_rand_u(I, i):
+    f = I.ghost.get("last_rand")
+    if f is None:
+        return I.fresh_const("no_rand", z3.RealSort())
+    return f(to_int(i))
